@@ -91,6 +91,7 @@ impl Ctx {
     /// Announce the (unit, sub) about to execute: a crash handler reports exactly these.
     #[inline]
     pub fn begin(&mut self, unit: u64, sub: u64) {
+        scrub_stack();
         self.cur_unit = unit;
         CUR_UNIT.store(unit, Ordering::Relaxed);
         CUR_SUB.store(sub, Ordering::Relaxed);
@@ -117,6 +118,16 @@ impl Ctx {
             self.samples.push(case());
         }
     }
+}
+
+/// Fill the stack region the next execution will use with a fixed pattern, so that a library bug
+/// that reads an uninitialised stack slot behaves the same in a batch and in a replay (the
+/// tracking allocator does the same for the heap).
+#[inline(never)]
+pub fn scrub_stack() {
+    let mut a = [0u8; 24 * 1024];
+    unsafe { std::ptr::write_bytes(a.as_mut_ptr(), 0xA5, a.len()) };
+    std::hint::black_box(&mut a);
 }
 
 thread_local! {
